@@ -317,7 +317,22 @@ Theorem needed_total_padding_is_reference :
     needed_total_padding input stride kernel = tflite_total_padding input stride kernel.
 Proof. exact needed_total_padding_is_reference_lemma. Qed.
 
+(* ---- transposed convolution on the NPU: a convolution over the zero-inserted input ---- *)
+(* with zeros inserted between the input samples, the kernel flipped and K - 1 - pt zeros in front, the stride-1
+   convolution computes the reference's transposed convolution with leading padding pt: every input length, kernel
+   length, upscaling factor s > 0, padding, input, kernel and output position *)
+Theorem transposed_convolution_as_convolution :
+  forall n K s pt x w o, 0 < s -> tconv_hw n K s (Z.of_nat K - 1 - pt) x w o = tconv_ref n K s pt x w o.
+Proof. exact tconv_as_conv_lemma. Qed.
+(* what the check validates on the (top, bottom) / (left, right) padding Vela computes for such an operator *)
+Theorem tconv_pad_ok_sound :
+  forall n K s on top bottom, tconv_pad_ok n K s on top bottom = true ->
+    top = K - 1 - tconv_ref_pad n K s on /\ on - n * s - top + K - 1 <= bottom /\ 0 <= bottom.
+Proof. exact tconv_pad_ok_sound_lemma. Qed.
+
 Print Assumptions space_to_batch_conv_batch_to_space_is_dilation.
+Print Assumptions transposed_convolution_as_convolution.
+Print Assumptions tconv_pad_ok_sound.
 Print Assumptions needed_total_padding_is_reference.
 Print Assumptions axis_parts_cover.
 Print Assumptions axis_parts_disjoint.
